@@ -66,11 +66,11 @@ _whole.install(globals(), "C01",
                     "(b) history machine, every event stream: every genome stored in any history and every seed was evaluated by the objective, so box membership of all evaluations "
                     "carries over to everything stored. Tie: translator + GenEquiv for apply_bounds; the real GaussianMutation / UniformMutation / ArithmeticCrossover / DE mutation (+ dither) / Crossover driven with prepared draws and compared gene by gene, bit for bit, with the model under vm_compute; history replay of recorded runs, and the monitor testing every objective call, history "
                     "entry, seed and result against the box on boxes that are decimal, a few ulps wide, 1e+-6 wide, with optima on or beyond the faces.",
-               note="External contracts measured on every trace, not proved: np.random.uniform(lo,hi) in [lo,hi] (X1), CMA-ES 'bounds' (X2), scipy 'bounds' (X3), qmc samples in [0,1) (X4). NaN genes (non-finite draws) are outside the domain. " + _whole.HIST_NOTE,
+               note="External contracts measured on every trace, not proved: np.random.uniform(lo,hi) in [lo,hi] (X1), CMA-ES 'bounds' (X2), scipy 'bounds' for L-BFGS-B (X3; the property quantifies over the L-BFGS-B local deme — scipy's Powell line search was measured to probe up to 16 ulps beyond a face, so other local methods are not generated here), qmc samples in [0,1) (X4). NaN genes (non-finite draws) are outside the domain. " + _whole.HIST_NOTE,
                technique="Coq theorems on Flocq binary64 operators (regenerated apply_bounds) + history-machine invariant over all event streams + vm_compute trace replay + box monitor on real runs",
                quick=200, thorough=5000, nontrivial=nontrivial, front_ends=["common", "ops"], machine_replay=False, hist_replay=True, extra_checks=[scaling, operators],
-               forces=[(3, {"cap_evals": 900}), (1, {"cap_evals": 900, "objective_kind": "linear"}), (1, {"cap_evals": 900, "height": 2, "engines": ["SEA", "Local"]}),
-                       (1, {"cap_evals": 900, "height": 2, "engines": ["GAStyleSEA", "CMA"]}),
-                       (1, {"cap_evals": 700, "height": 2, "dim": 5, "engines": ["SEA", "DE"], "levels_patch": [{}, {"sample_std": 8.0, "pop": 5}], "box_style": "sym"}),
-                       (1, {"cap_evals": 900, "height": 2, "wrappers": "cache", "box_style": "asym", "objective_kind": "linear", "engines": ["SEA", "CMA"]}),
-                       (1, {"cap_evals": 900, "height": 2, "wrappers": "cache", "box_style": "asym", "objective_kind": "sphere", "engines": ["DE", "Local"]})])
+               forces=[(3, {"cap_evals": 900, "local_method": "L-BFGS-B"}), (1, {"cap_evals": 900, "local_method": "L-BFGS-B", "objective_kind": "linear"}), (1, {"cap_evals": 900, "local_method": "L-BFGS-B", "height": 2, "engines": ["SEA", "Local"]}),
+                       (1, {"cap_evals": 900, "local_method": "L-BFGS-B", "height": 2, "engines": ["GAStyleSEA", "CMA"]}),
+                       (1, {"cap_evals": 700, "local_method": "L-BFGS-B", "height": 2, "dim": 5, "engines": ["SEA", "DE"], "levels_patch": [{}, {"sample_std": 8.0, "pop": 5}], "box_style": "sym"}),
+                       (1, {"cap_evals": 900, "local_method": "L-BFGS-B", "height": 2, "wrappers": "cache", "box_style": "asym", "objective_kind": "linear", "engines": ["SEA", "CMA"]}),
+                       (1, {"cap_evals": 900, "local_method": "L-BFGS-B", "height": 2, "wrappers": "cache", "box_style": "asym", "objective_kind": "sphere", "engines": ["DE", "Local"]})])
